@@ -1,10 +1,16 @@
 (* Property C03 — structured results are well-typed instances of the declared classes.
    Proved here (generic, LSP.Typing): a class-typed result is always an object OF THAT CLASS whose attribute list is
    exactly the class's attribute list, for every input, callback and fuel; elements of sequences / dict values / tuple
-   components are produced by the converter for the element type.  That union hooks return a value of an alternative
-   is decided by the abstract-interpretation obligations shared with C01 and validated on the streams. *)
-From LSP Require Import Base MM Sem SemThy Disp Typing Denote.
+   components are produced by the converter for the element type.
+   ROUND 2/4 — the statement itself for the covered part of the package (props/Cover.v): [C03_whenever_structuring_succeeds] /
+   [.._any_type] / [.._messages]: for every covered structure / annotation / message class and EVERY closed-valid value of the
+   metamodel, whenever structuring succeeds — with any fuel — the result has the requested type at every depth (Denote.has_type:
+   nested protocol objects are objects of the generated classes, sequences hold converted elements, tuples are tuples, enumeration
+   positions hold members, only LSPAny positions hold uninterpreted JSON, at a union a value of one of its alternatives), and it
+   does succeed with enough fuel.  Outside the covered part: the typed oracle on the real results of the streams. *)
+From LSP Require Import Base MM Sem SemThy Disp Typing Denote RoundTrip HookFrag Image ImageThy Link MMRound.
 From Gen Require Import MMData PkgData Known.
+From Props Require Import Cover.
 
 Section AnyStr.
 Variable pystr : json -> string.
@@ -32,6 +38,36 @@ Proof. intros n P o. exact (proj2 (typed_b_sound Sg n) P o). Qed.
 Theorem C03_well_typed_values_serialise : forall P o, has_type Sg P o -> exists m, unstr Sg m (Some P) o = Ok (den Sg o).
 Proof. exact (unstr_typed Sg). Qed.
 
+(* ------------------------------------------------------------ the statement, covered part *)
+Section Typed.
+Variable pystr : json -> string.
+Lemma same_result P j n1 n2 o1 o2 : structure Sg pystr n1 P j = Ok o1 -> structure Sg pystr n2 P j = Ok o2 -> o1 = o2.
+Proof.
+  intros H1 H2. pose proof (structure_mono_le Sg pystr n1 (Nat.max n1 n2) P j o1 (Nat.le_max_l _ _) H1) as A.
+  pose proof (structure_mono_le Sg pystr n2 (Nat.max n1 n2) P j o2 (Nat.le_max_r _ _) H2) as B. congruence.
+Qed.
+Theorem C03_whenever_structuring_succeeds : forall s st j, find_struct mm s = Some st -> String.eqb s "LSPObject" = false ->
+  mem s (fst cov) = true -> cvalid mm (TRef s) j ->
+  (exists n o, structure Sg pystr n (PyCls s) j = Ok o) /\ (forall n o, structure Sg pystr n (PyCls s) j = Ok o -> has_type Sg (PyCls s) o).
+Proof.
+  intros s st j F O G V. destruct (mm_covered_roundtrip_structures pystr s st j F O G V) as [n0 [o0 [j' [S0 [T0 _]]]]].
+  split; [exists n0, o0; exact S0|]. intros n o S. rewrite (same_result _ _ _ _ _ _ S S0). exact T0.
+Qed.
+Theorem C03_whenever_structuring_succeeds_any_type : forall T j p k n0, cvalid mm T j -> wfp p = true ->
+  smatch mm Sg alias_objects k (py_of mm n0 T) p = true -> okty Sg (fst cov) (snd cov) p = true ->
+  (exists n o, structure Sg pystr n p j = Ok o) /\ (forall n o, structure Sg pystr n p j = Ok o -> has_type Sg p o).
+Proof.
+  intros T j p k n0 V W M O. destruct (mm_covered_roundtrip pystr T j p k n0 V W M O) as [n1 [o1 [j' [S1 [T1 _]]]]].
+  split; [exists n1, o1; exact S1|]. intros n o S. rewrite (same_result _ _ _ _ _ _ S S1). exact T1.
+Qed.
+Theorem C03_whenever_structuring_succeeds_messages : forall tp j, In tp covered_msg_pairs -> cvalid mm (TLit (snd (fst tp))) j ->
+  (exists n o, structure Sg pystr n (PyCls (snd tp)) j = Ok o) /\ (forall n o, structure Sg pystr n (PyCls (snd tp)) j = Ok o -> has_type Sg (PyCls (snd tp)) o).
+Proof.
+  intros tp j I V. destruct (mm_covered_roundtrip_messages pystr tp j I V) as [n0 [o0 [j' [S0 [T0 _]]]]].
+  split; [exists n0, o0; exact S0|]. intros n o S. rewrite (same_result _ _ _ _ _ _ S S0). exact T0.
+Qed.
+End Typed.
+
 Example C03_example : exists c fs, lookup_cls Sg c = Some fs /\ length fs >= 2.
 Proof. exists "Position". eexists. split; [vm_compute; reflexivity | repeat constructor]. Qed.
 
@@ -41,3 +77,6 @@ Print Assumptions C03_tuple_result_shape.
 Print Assumptions C03_enum_result_is_member.
 Print Assumptions C03_typed_b_sound.
 Print Assumptions C03_well_typed_values_serialise.
+Print Assumptions C03_whenever_structuring_succeeds.
+Print Assumptions C03_whenever_structuring_succeeds_any_type.
+Print Assumptions C03_whenever_structuring_succeeds_messages.
